@@ -7,10 +7,13 @@ Local Open Scope Z_scope.
 
 (* the time claims of a decoded payload are valid at [now]:
    exp (if present) is a number strictly after now; iat (if present) is a number
-   and the token is not older than the configured maximum age *)
-Definition times_valid (now max_age_cfg : Z) (c : claims) : Prop :=
+   and the token is not older than the maximum age [ma] (a maximum <= 0, which only
+   SEC_TOKEN_MAX_AGE can produce, switches the age limit off).  [ma] is
+   resolved_max_age e = TokenMaxAge if positive, else SEC_TOKEN_MAX_AGE in
+   seconds if it parses, else the default *)
+Definition times_valid (now ma : Z) (c : claims) : Prop :=
   (j_exp c = JAbsent \/ exists z, j_exp c = JNum z /\ now < f2i z) /\
-  (j_iat c = JAbsent \/ exists z, j_iat c = JNum z /\ wrap64 (now - f2i z) <= max_age_of max_age_cfg).
+  (j_iat c = JAbsent \/ exists z, j_iat c = JNum z /\ (ma <= 0 \/ wrap64 (now - f2i z) <= ma)).
 
 (* [tok] = header.payload is a token issued under a signing key [key] the server
    holds, valid at [now], whose subject is the non-empty string [sub] *)
@@ -20,7 +23,7 @@ Definition token_valid (e : env) (now : Z) (tok key sub : bytes) : Prop :=
     decode_seg e p0 = Some h /\ kid_strict h = Some kid /\
     load_signing_key e kid = Some key /\
     decode_seg e p1 = Some c /\
-    times_valid now (e_max_age e) c /\
+    times_valid now (resolved_max_age e) c /\
     j_sub c = JStr sub /\ sub <> [].
 
 (* the state validateTokenAndDeriveKeys leaves for a valid token *)
@@ -63,7 +66,7 @@ Definition id_token_valid (e : env) (now : Z) (t : bytes) (out : id_claims) : Pr
     load_signing_key e (kid_lenient h) = Some key /\
     b64url_decode p2 = Some (c_sign (e_cr e) key (p0 ++ dot :: p1)) /\
     decode_seg e p1 = Some c /\
-    times_valid now (e_max_age e) c /\
+    times_valid now (resolved_max_age e) c /\
     (exists s, j_sub c = JStr s /\ s <> []) /\
     out = {| ic_sub := jstr (j_sub c); ic_iss := jstr (j_iss c); ic_scope := jstr (j_scope c);
              ic_exp := jint (j_exp c); ic_iat := jint (j_iat c) |}.
